@@ -149,4 +149,11 @@ theorem evalT_withOn (e : TExpr) (cb : CbId) (he : e.fresh cb) : ∀ (c : Cls),
     rw [ihb he.2, evalT_after_addOn b cb he.2 _ _ cb (evalT_idx_lt a cb he.1 c)]
     simp only [addOn_append]
 
+/-- **(e, decorator)** `@T` / `def f(self): body` ↔ `f = T'` where every call of `T'` names `body` last in
+`on=` — in any context (`T` must create its transitions itself and not already name the callback) -/
+theorem decorated_eq (e : TExpr) (f : Name) (cb : CbId) (he : e.fresh cb) :
+    Stmts.Eqv [.decorated e f cb] [.assign f (e.withOn cb)] := by
+  intro c
+  simp only [elabBody, List.foldl_cons, List.foldl_nil, elabStmt, evalT_withOn e cb he c]
+
 end SMV.Decl
